@@ -19,6 +19,9 @@ PROP = dict(
         dict(fn="aw_transform.simplify.simplify_string", scope={"list": 3, "data": [d for d in DATA if "title" in d], "strs": ["title"]}),
     ],
     scope={"list": 3, "data": DATA},
+    extra=[lambda run: run.transform_mode("c19", 400 if run.tier == "quick" else 20000,
+                                          "categorize / tag on the real functions against a reference written from the statement "
+                                          "(deepest matching rule, later rule wins ties, regex found in any selected string value)")],
     timeout_s=20,
     trusted=["T-RE: re.compile/search/sub are uninterpreted functions of (pattern, flags, text)",
              "T-URL: urllib.parse.urlparse components are uninterpreted functions of the url"],
